@@ -8,7 +8,7 @@ S=${1:-/var/tmp/vs-dev}
 rm -rf $S && mkdir -p $S
 if [ -n "$CLEAN" ]; then git -C /repo archive HEAD | tar -x -C $S; else rsync -a --exclude .git /repo/ $S/; fi
 [ -n "$PATCH" ] && (cd $S && patch -p1 -s < $PATCH)
-mkdir -p $S/verifsim && cp ${VERIF_HOME:-/verif}/simrt/verifsim/*.go $S/verifsim/
+mkdir -p $S/verifsim && cp -r ${VERIF_HOME:-/verif}/simrt/verifsim/. $S/verifsim/
 sed -i 's/^go 1.22$/go 1.23/' $S/go.mod
 if [ -z "$PRISTINE" ]; then ${VERIF_HOME:-/verif}/bin/instrument $S > $S/instrument.json; else ${VERIF_HOME:-/verif}/bin/instrument -pristine $S > $S/instrument.json; fi
 cp -r ${VERIF_HOME:-/verif}/harness/zz_verif $S/
